@@ -7,8 +7,8 @@ from harness import tlc
 C09_INV = ["TypeOK", "UniqueIds", "NoCrossTalk", "IdBound", "NoIdExhaustion", "Accounting", "Recycled"]
 C10_INV = ["FailedOnce", "AllFailed"]
 C10_PROPS = ["NothingAfterDeath", "SendRefusedWhenDead"]
-WITNESSES = {"C09": ["Witness_LateResponse", "Witness_Grow", "Witness_SessionOpen", "Witness_Busy"],
-             "C10": ["Witness_ErroredTwoAtOnce", "Witness_Refused", "Witness_SessionFailed"]}
+WITNESSES = {"C09": ["Witness_LateResponse", "Witness_Grow", "Witness_SessionOpen", "Witness_Busy", "Witness_StaleTimeout"],
+             "C10": ["Witness_ErroredTwoAtOnce", "Witness_Refused", "Witness_SessionFailed", "Witness_FailWhileEncoding"]}
 
 C10_VARS = {"errs", "cperr", "defunct", "closed"}
 DEATH_ACTIONS = {"SocketError", "Close"}
@@ -23,6 +23,8 @@ def owner_of(divergence, dead_before):
         return "C10"
     if set(d) & C10_VARS:
         return "C10"
+    if name in ("Send", "Push") and set(d) <= {"reqs", "ph", "st"}:
+        return "C10"          # when the handler is registered relative to encoding / failure is C10's concern
     st = d.get("st")
     if st and any(v in ("errored", "refused") for v in list(st["spec"].values()) + list(st["code"].values())):
         return "C10"
@@ -35,6 +37,7 @@ def close_fails_sessions(rc):
     try:
         h.act_Borrow(1, -1)
         h.act_Send(1, -1)
+        h.act_Push(1, -1)
         h._page(h._rid[1], False)
         h.conn.close()
         return h.project()["cperr"][1] >= 1
@@ -44,11 +47,11 @@ def close_fails_sessions(rc):
 
 def run(ctx, pid):
     from harness.replay import connection as rc
-    consts = {"MaxId": 2, "InitFree": 1, "Reqs": {1, 2, 3}, "CPReqs": {3}, "MaxPages": 2, "CloseFailsSessions": True,
-              "Busy": not ctx.quick}
+    consts = {"MaxId": 2, "InitFree": 1, "Reqs": {1, 2, 3}, "CPReqs": set() if ctx.quick else {3}, "MaxPages": 2,
+              "CloseFailsSessions": True, "Busy": not ctx.quick}
     inv = C09_INV + C10_INV
     # the intended design (close() fails paging sessions too) must satisfy the properties
-    icfg = tlc.write_cfg(os.path.join(ctx.scratch, "conn_intended.cfg"), constants=consts, invariants=inv,
+    icfg = tlc.write_cfg(os.path.join(ctx.scratch, "conn_intended.cfg"), constants=dict(consts, CPReqs={3}), invariants=inv,
                          properties=C10_PROPS, deadlock=False)
     ires = tlc.check_model("Connection", icfg, ctx.scratch, timeout=900)
     ctx.add_tlc(ires, "exhaustive, intended design (CloseFailsSessions)")
@@ -85,16 +88,11 @@ def run(ctx, pid):
                           signature="spec:%s" % res.invariant)
         return
     cov = res.coverage()
-    zero = [a for a in ("Borrow", "Send", "Respond", "RespondPage", "Timeout", "FailAll") if a in cov and cov[a][1] == 0]
+    expected_actions = ["Borrow", "Send", "Push", "Respond", "Timeout", "TimeoutStale", "FailAll"] + (["RespondPage"] if consts["CPReqs"] else [])
+    zero = [a for a in expected_actions if a in cov and cov[a][1] == 0]
     if zero:
         raise tlc.MachineryError("actions never taken in the exhaustive model: %s" % zero)
     ctx.note("coverage_zero_actions", zero)
-    for w in WITNESSES[pid]:
-        wcfg = tlc.write_cfg(os.path.join(ctx.scratch, w + ".cfg"), constants=dict(consts, Busy=True), invariants=[w], deadlock=False)
-        wres = tlc.check_model("Connection", wcfg, ctx.scratch, timeout=600)
-        if wres.invariant != w:
-            raise tlc.MachineryError("vacuity witness %s not reachable" % w)
-    ctx.note("vacuity_witnesses_reached", len(WITNESSES[pid]))
 
     if not ctx.quick:
         big = {"MaxId": 3, "InitFree": 2, "Reqs": {1, 2, 3, 4}, "CPReqs": {3, 4}, "MaxPages": 2, "CloseFailsSessions": intended, "Busy": True}
@@ -113,18 +111,38 @@ def run(ctx, pid):
     graphs = [(consts, nodes, edges, init)]
     if ctx.quick:
         # the unwritable-socket dimension on a smaller model (2 requests), every edge replayed as well
-        sconsts = dict(consts, Reqs={1, 2}, CPReqs=set(), Busy=True)
-        scfg = tlc.write_cfg(os.path.join(ctx.scratch, "conn_busy.cfg"), constants=sconsts, invariants=inv,
-                             properties=C10_PROPS, deadlock=False)
-        sres, snodes, sedges, sinit = tlc.state_graph("Connection", scfg, ctx.scratch, timeout=900)
-        ctx.add_tlc(sres, "exhaustive, 2 requests, unwritable socket enabled")
-        if sres.violation:
-            own = "C09" if sres.invariant in C09_INV else "C10"
-            if own == pid:
-                ctx.violation("TLC: %s violated on Connection.tla (busy model)" % sres.invariant,
-                              replay={"trace": [dict(s.get("act", {})) for _, s in sres.trace()]}, signature="spec:%s" % sres.invariant)
-            return
-        graphs.append((sconsts, snodes, sedges, sinit))
+        for label, sconsts in (("2 requests, unwritable socket enabled", dict(consts, Reqs={1, 2}, CPReqs=set(), Busy=True)),
+                               ("2 requests, one with continuous paging", dict(consts, Reqs={1, 2}, CPReqs={2}, Busy=False))):
+            scfg = tlc.write_cfg(os.path.join(ctx.scratch, "conn_small.cfg"), constants=sconsts, invariants=inv,
+                                 properties=C10_PROPS, deadlock=False)
+            sres, snodes, sedges, sinit = tlc.state_graph("Connection", scfg, ctx.scratch, timeout=900)
+            ctx.add_tlc(sres, "exhaustive, " + label)
+            if sres.violation:
+                own = "C09" if sres.invariant in C09_INV else "C10"
+                if own == pid:
+                    ctx.violation("TLC: %s violated on Connection.tla (%s)" % (sres.invariant, label),
+                                  replay={"trace": [dict(s.get("act", {})) for _, s in sres.trace()]}, signature="spec:%s" % sres.invariant)
+                return
+            graphs.append((sconsts, snodes, sedges, sinit))
+    # vacuity: the interesting situations must occur in the explored graphs (evaluated on TLC's states)
+    def fnv(v):
+        return list(v.values()) if isinstance(v, dict) else list(v)
+    WIT = {
+        "Witness_LateResponse": lambda c, n: n["act"]["name"] == "RespondLate",
+        "Witness_Grow": lambda c, n: n["highest"] == c["MaxId"] - 1 and n["highest"] > c["InitFree"] - 1,
+        "Witness_SessionOpen": lambda c, n: len(fnv(n["cps"])) > 0,
+        "Witness_Busy": lambda c, n: not (n["defunct"] or n["closed"]) and "refused" in fnv(n["st"]),
+        "Witness_StaleTimeout": lambda c, n: n["act"]["name"] == "TimeoutStale",
+        "Witness_ErroredTwoAtOnce": lambda c, n: fnv(n["st"]).count("errored") >= 2,
+        "Witness_Refused": lambda c, n: "refused" in fnv(n["st"]),
+        "Witness_SessionFailed": lambda c, n: any(x > 0 for x in fnv(n["cperr"])),
+        "Witness_FailWhileEncoding": lambda c, n: any(p == "encode" and t == "errored" for p, t in zip(fnv(n["ph"]), fnv(n["st"]))),
+    }
+    missing = [w for w in WITNESSES[pid]
+               if not any(WIT[w](gc_, n) for gc_, gn, _, _ in graphs for n in gn.values())]
+    if missing:
+        raise tlc.MachineryError("vacuity witnesses not reachable in the explored graphs: %s" % missing)
+    ctx.note("vacuity_witnesses_reached", len(WITNESSES[pid]))
     # ---- spec -> code: replay walks covering every edge of the exhaustive graph(s)
     replayed = 0
     total_edges = total_covered = 0
